@@ -117,7 +117,7 @@ def roles(rep, ex: Explorer):
                 # the CNFs are looked up in something an earlier query left in the state.  Keyed by the formulas themselves this
                 # could be an exact memo (the analysis cannot tell: exit 2); keyed by their *text* it is not - str() of a
                 # formula is a presentation (pysmt abbreviates deep sub-terms), different formulas share it
-                if "'str'" in repr(rv_.label[2]) or "'repr'" in repr(rv_.label[2]) or "'text'" in repr(rv_.label[2]):
+                if "'str'" in repr(rv_.label[2]) or "'repr'" in repr(rv_.label[2]) or "'text'" in repr(rv_.label[2]) or _formats_formula(rv_.label[2]):
                     n += 1
                     rep.violation("CNF.roles", site2, "query CNFs from an earlier query", "the CNFs of a query are those of its own formulas, whatever was asked before",
                                   extracted=f"looked up under the text of the formulas: {F.show_desc(rv_.label[2])[:120]}", required="[Q.A∧Q.B, Q.A∧¬Q.B] of this query", function=site2)
@@ -126,6 +126,15 @@ def roles(rep, ex: Explorer):
         n += 1
         rep.check(ok, "CNF.roles", site2, "query CNFs", "query_to_cnf returns [CNF(A∧B), CNF(A∧¬B)] in this order", extracted=got, required="[Q.A∧Q.B, Q.A∧¬Q.B]", function=site2)
     rep.floor("CNF.roles query_to_cnf paths", n, 1)
+
+
+def _formats_formula(d):
+    """a formatted string (f-string, +, str.format) with a formula among its parts: the formula's text"""
+    if isinstance(d, tuple):
+        if d[:1] == ("name",) and len(d) > 1 and isinstance(d[1], tuple) and any(isinstance(x, tuple) and x[:1] == ("f",) for x in d[1]):
+            return True
+        return any(_formats_formula(x) for x in d)
+    return False
 
 
 def literals(rep, ex: Explorer):
@@ -255,7 +264,7 @@ def constants_handling(rep, ex: Explorer):
     qual = f"{TS}.goal2intcnf"
     site = fn_label(ex.prog, qual)
     E = ("w", "E")
-    kids = {E: [("w", "c1"), ("w", "c2")], ("w", "c1"): [("w", "a1")], ("w", "c2"): [("w", "a2")], ("w", "E0"): [("w", "a0")]}
+    kids = {E: [("w", "c1"), ("w", "c2")], ("w", "c1"): [("w", "a1")], ("w", "c2"): [("w", "a2")], ("w", "E0"): [("w", "a0")], ("w", "E1"): [("w", "a3")]}
 
     def children_hook(I, v, args, kwargs, node):
         ks = kids.get(v.var)
@@ -264,14 +273,16 @@ def constants_handling(rep, ex: Explorer):
         return I.alloc(HList([("one", ElemV(k, "goalexpr")) for k in ks]))
 
     n = 0
-    for shape in ("unit", "or"):
+    for shape in ("unit", "or", "two"):
         I = Interp(ex.prog, summaries=dict(wrappers.SUMMARIES))
         I.method_hooks[("goalexpr", "children")] = children_hook
-        top = ("w", "E0") if shape == "unit" else E
+        top = ("w", "E0") if shape != "or" else E
+        # "two": a goal of two unit formulas - what happens to one formula must not leak into the next
+        tops = [top] + ([("w", "E1")] if shape == "two" else [])
 
-        def setup(I, top=top):
+        def setup(I, tops=tops):
             s, es = _mk(I)
-            return [s, I.alloc(HList([("one", ElemV(top, "goalexpr"))]))], {}
+            return [s, I.alloc(HList([("one", ElemV(t, "goalexpr")) for t in tops]))], {}
 
         paths = I.explore(qual, setup)
         if ex.report is not None:
@@ -287,11 +298,12 @@ def constants_handling(rep, ex: Explorer):
                 return d.get((kind, ("elem", var, "goalexpr")))
 
             is_or = pred("or", top)
-            if shape == "unit" and is_or is True:
+            if shape != "or" and (is_or is True or any(pred("or", t) is True for t in tops[1:])):
                 continue  # a unit witness that is an Or is the other shape
             if shape == "or" and is_or is not True:
                 continue
-            lits = [top] if shape == "unit" else kids[E]
+            groups = [[t] for t in tops] if shape != "or" else [kids[E]]
+            lits = [l for g in groups for l in g]
             # value of every literal under the decided predicates (undecided ones: both completions)
             vw = view(p.state, p.outcome[1])
             got = _clauses(vw)
@@ -316,15 +328,23 @@ def constants_handling(rep, ex: Explorer):
                 options.append(opts)
             bad = None
             for combo in product(*options):
-                if any(v is True for v, _, _ in combo):
-                    want = []
-                else:
-                    keep = [(("neg", ("id", ("elem", a, "goalexpr"))) if ng else ("id", ("elem", a, "goalexpr"))) for v, ng, a in combo if v is None]
-                    want = [sorted(keep, key=repr)] if keep else "UNSAT"
-                if want == "UNSAT":
-                    ok = _is_unsat_encoding(got)
-                else:
-                    ok = [sorted(c, key=repr) for c in got] == want
+                rest = [sorted(c, key=repr) for c in got]
+                ok, want, i = True, [], 0
+                for g in groups:
+                    part = combo[i:i + len(g)]
+                    i += len(g)
+                    if any(v is True for v, _, _ in part):
+                        continue
+                    keep = [(("neg", ("id", ("elem", a, "goalexpr"))) if ng else ("id", ("elem", a, "goalexpr"))) for v, ng, a in part if v is None]
+                    if keep:
+                        want.append(sorted(keep, key=repr))
+                        ok = ok and rest[:1] == [sorted(keep, key=repr)]
+                        rest = rest[1:]
+                    else:
+                        want = "UNSAT" if len(groups) == 1 else want + [[("an unsatisfiable pair",)]]
+                        ok = ok and _is_unsat_encoding(rest[:2])
+                        rest = rest[2:]
+                ok = ok and not rest
                 if not ok:
                     bad = (combo, want)
                     break
